@@ -409,3 +409,107 @@ Proof.
   intros Hs Hv segs E.
   apply (all_segmentations lim o w); [eapply wire_prefixes; eassumption|eapply wire_one_read; eassumption|exact E].
 Qed.
+
+(* ------------------------------------------------------------------ a body source that fails part of the way *)
+(* the head and the blank line consumed, whatever follows *)
+Lemma wire_head_run lim o r head B :
+  valid lim r = true -> serialize_headers (status_line r) (c_headers r) = Some head ->
+  headers_safe (c_headers r) = true ->
+  exists f', (2 * length B + 2 <= f')%nat /\
+    feed lim o init (u8 (status_line r) ++ 13 :: 10 :: lines_bytes (map hline (c_headers r)) ++ 13 :: 10 :: B) [] =
+    feed_loop f' lim o (bst (payload_for lim r) (m_close (expected_msg r)) (inflight1 lim)) B
+              (ev_msg (expected_msg r) (has_payload r) []).
+Proof.
+  intros Hv Hh Hsafe. destruct (valid_unpack lim r Hv).
+  destruct (good_hlines lim r head Hv Hh) as (Hg & H13 & H10 & Hne0).
+  set (L0 := u8 (status_line r)) in *. set (fls := map hline (c_headers r)) in *.
+  rewrite feed_as_loop. change init with (hst [] []).
+  set (R := lines_bytes fls ++ 13 :: 10 :: B).
+  set (W := L0 ++ 13 :: 10 :: R).
+  assert (HlenW : length W = (length L0 + 2 + length R)%nat).
+  { unfold W. rewrite app_length. cbn [length]. lia. }
+  assert (Hcnt : lenN ([L0] ++ fls) <= max_headers lim).
+  { rewrite lenN_app. change (lenN [L0]) with 1. unfold fls. rewrite lenN_map. lia. }
+  assert (Hcnt2 : lenN ((L0 :: fls) ++ [[]]) <= max_headers lim).
+  { rewrite lenN_app, lenN_cons. change (lenN [[]]) with 1. unfold fls. rewrite lenN_map. lia. }
+  replace (2 * length W + 2)%nat with (S (2 * length W + 1))%nat by lia.
+  unfold W at 2. rewrite feed_loop_S, step_f_line; [|exact Hne0|exact H13|cbn [limit_for]; lia|cbn [app]; change (lenN [L0]) with 1; lia].
+  cbn [app].
+  destruct (fields_run lim o fls [L0] (13 :: 10 :: B) [] (2 * length W + 1)) as (f' & Hf' & Hrun);
+    [discriminate|exact Hg|exact Hcnt|fold R; lia|].
+  cbn [length] in Hf'. destruct f' as [|f']; [lia|].
+  exists f'. split; [lia|].
+  transitivity (feed_loop (S f') lim o (hst ([L0] ++ fls) []) (13 :: 10 :: B) []); [exact Hrun|].
+  cbn [app]. rewrite feed_loop_S.
+  rewrite (step_f_blank lim o (L0 :: fls) B [] _ _ ltac:(discriminate) Hcnt2 (start_message_valid lim o r Hv Hsafe)).
+  reflexivity.
+Qed.
+
+Lemma wrun_head_open H ops :
+  H <> [] -> forallb body_op ops = true ->
+  let w := snd (wrun winit (WEnableChunking :: WHeaders H :: ops)) in
+  w = [] \/ w = H ++ concat (map enc1 (map op_data ops)).
+Proof.
+  intros HH Hb.
+  rewrite (wrun_silent winit WEnableChunking (mkW None true None false false)) by reflexivity.
+  rewrite (wrun_silent _ (WHeaders H) (mkW None true (Some H) false false)) by reflexivity.
+  destruct (proj2 (head_first_once None true H ops HH Hb)) as (sf & E & Hnil).
+  rewrite E. cbn [snd]. change (mkW None true None true false) with (sB None true) in *.
+  rewrite wrun_B_chunked in * by exact Hb. cbn [snd] in *.
+  destruct (w_hwritten sf); [right; reflexivity|left]. rewrite Hnil by reflexivity. reflexivity.
+Qed.
+
+Lemma body_pieces_chunk b : body_pieces b = chunk_pieces b.
+Proof. destruct b; reflexivity. Qed.
+
+(* what the parser has after reading the bytes of an aborted chunked request: nothing at all, or it is still
+   inside the body (HttpPayloadParser has not reported PAYLOAD_COMPLETE, the StreamReader got no feed_eof) *)
+Definition not_completed (s : pst) (a : acc) : Prop := (s = init /\ a = []) \/ payload s <> None.
+
+Theorem aborted_body_not_completed lim o r k w' :
+  writer_chunking_enabled (c_chunked r) = true ->
+  client_serialize r <> None -> valid lim r = true ->
+  client_serialize_aborted r k = Some w' ->
+  forall segs, concat segs = w' ->
+  exists s a, run_segs lim o init segs [] [] = (s, a, ROk []) /\ not_completed s a.
+Proof.
+  intros Hch Hser Hv Hab segs Eseg.
+  destruct (client_serialize r) as [w|] eqn:Es; [|congruence]. clear Hser.
+  destruct (wire_is lim r w Es Hv) as (head & Hh & Hsafe & Ew).
+  destruct (valid_unpack lim r Hv).
+  unfold client_serialize_aborted in Hab. destruct (method_ok (c_method r)); [|discriminate].
+  rewrite Hh in Hab. apply Some_inj in Hab.
+  destruct (head_shape r head vf_hne0 vf_names0 Hh) as (Hhead & _ & _ & _).
+  assert (HH : head <> []).
+  { rewrite Hhead, lines_bytes_cons. intro E. apply app_eq_nil in E as [E _]. apply app_eq_nil in E as [_ E]. discriminate. }
+  unfold aborted_ops, write_eof_only_after_success in Hab. rewrite Hch, app_nil_r in Hab. cbn [app] in Hab.
+  set (ps := body_pieces (c_body r)) in *.
+  pose proof (wrun_head_open head (map WWrite (firstn k ps)) HH (body_op_writes _)) as Hw. cbv zeta in Hw.
+  rewrite Hab, op_data_writes in Hw.
+  (* the whole message, as a continuation of w' *)
+  assert (Hfull : w = head ++ concat (map enc1 (firstn k ps)) ++ (concat (map enc1 (skipn k ps)) ++ last_chunk)).
+  { rewrite Ew. unfold body_wire. rewrite Hch. unfold chunked_body. rewrite <- body_pieces_chunk. fold ps.
+    rewrite <- (firstn_skipn k ps) at 1. rewrite map_app, concat_app.
+    rewrite Hhead, lines_bytes_cons. repeat (rewrite <- app_assoc; cbn [app]). reflexivity. }
+  assert (Hpre : prefix_accepting lim o w').
+  { intros x y Exy. destruct Hw as [Hw|Hw].
+    - apply (wire_prefixes lim o r w Es Hv x (y ++ w)). rewrite Hw in Exy. symmetry in Exy. apply app_eq_nil in Exy as [-> ->]. reflexivity.
+    - apply (wire_prefixes lim o r w Es Hv x (y ++ concat (map enc1 (skipn k ps)) ++ last_chunk)).
+      rewrite Hfull, app_assoc, <- Hw, Exy, <- app_assoc. reflexivity. }
+  assert (Hone : exists s a, feed lim o init w' [] = (s, a, ROk []) /\ not_completed s a).
+  { destruct Hw as [Hw|Hw].
+    - rewrite Hw. exists init, []. split; [reflexivity|left; split; reflexivity].
+    - set (X := concat (map enc1 (firstn k ps))) in *.
+      rewrite Hw, Hhead, lines_bytes_cons. repeat (rewrite <- app_assoc; cbn [app]).
+      destruct (wire_head_run lim o r head X Hv Hh Hsafe) as (f' & Hf' & Hrun). rewrite Hrun.
+      unfold payload_for. rewrite Hch.
+      destruct (chunked_strict_prefix_open lim o (mt_of lim r) (m_close (expected_msg r)) (inflight1 lim) ps
+                  (ev_msg (expected_msg r) (has_payload r) [])
+                  ltac:(unfold ps; rewrite body_pieces_chunk; apply pieces_hex_ok; exact Hv) vf_ml0 vf_mf0
+                  X (concat (map enc1 (skipn k ps)) ++ last_chunk)) as (p' & a' & Hopen).
+      + unfold chunked_body, X. rewrite <- (firstn_skipn k ps) at 1. rewrite map_app, concat_app, <- app_assoc. reflexivity.
+      + unfold last_chunk. intro E. apply app_eq_nil in E as [_ E]. discriminate.
+      + rewrite (Hopen f' Hf'). eexists _, _. split; [reflexivity|]. right. discriminate. }
+  destruct Hone as (s & a & Hfeed & Hnc). exists s, a. split; [|exact Hnc].
+  apply (all_segmentations lim o w'); assumption.
+Qed.
